@@ -49,6 +49,8 @@ theorem step_mono (c : WMCfg) (ct : Bool) (s s' : St) (a : Act) (h : step c ct s
   | done tid i => simp only [step] at h; split at h <;> cases h; exact Nat.le_refl _
   | wait tid i => simp only [step] at h; split at h <;> cases h; exact Nat.le_refl _
   | adv tid => simp only [step] at h; split at h <;> cases h; exact Nat.le_refl _
+  | count tid i => simp only [step] at h; split at h <;> cases h; exact Nat.le_refl _
+  | publish tid i => simp only [step] at h; split at h <;> cases h; exact Nat.le_refl _
   | run tid =>
     simp only [step] at h
     cases ht : s.thr tid with
@@ -101,6 +103,16 @@ theorem wait_instr_kind (c : WMCfg) (k : Kind) (st i : Nat)
     match st with
     | 0 => simp at h
     | n + 1 => simp at h
+  | count j =>
+    simp only [progOf] at h
+    match st with
+    | 0 | 1 => simp at h
+    | n + 2 => simp at h
+  | publish j =>
+    simp only [progOf] at h
+    match st with
+    | 0 | 1 => simp at h
+    | n + 2 => simp at h
 
 theorem W.step_thr (c : WMCfg) {s s' : St} {tid : Nat} {t : Thr} (hW : W s) (ht : s.thr tid = some t)
     (h : stepThr c s tid t = some s') : W s' := by
@@ -207,6 +219,14 @@ theorem W.reachable (c : WMCfg) (ct : Bool) (s : St) (hr : Reachable (sys c ct) 
       split at hs <;> cases hs
       exact W.set hW (Nat.le_refl _) tid _ (fresh tid _)
     | adv tid =>
+      simp only [step] at hs
+      split at hs <;> cases hs
+      exact W.set hW (Nat.le_refl _) tid _ (fresh tid _)
+    | count tid i =>
+      simp only [step] at hs
+      split at hs <;> cases hs
+      exact W.set hW (Nat.le_refl _) tid _ (fresh tid _)
+    | publish tid i =>
       simp only [step] at hs
       split at hs <;> cases hs
       exact W.set hW (Nat.le_refl _) tid _ (fresh tid _)
